@@ -34,7 +34,38 @@ DESIGN_REF = "DESIGN.md section 3 (C06), section 4 (F1)"
 
 
 def strategy(tier):
-    return lossgen.loss_case(target_param="subset-ordered", catalogue=1)
+    @st.composite
+    def case(draw):
+        c = draw(lossgen.loss_case(target_param="subset-ordered", target_state=True, catalogue=1))
+        # order of the calls on the one loss object: costIV before or after cost/residual
+        c["iv_first"] = draw(st.booleans())
+        return c
+    return case()
+
+
+def _check_costIV(case, rec, obj, key, m, su, names, y, th, free, times, cols):
+    """costIV([free parameters, free initial values in target_state order])."""
+    ts = case.get("target_state")
+    ts_names = ts or names
+    n_in = len(free) + len(ts_names)
+    # input lengths the validation documents as ambiguous are rejected by design
+    if (case["target_param"] is not None and ts is None and n_in == len(m["params"])) or \
+       (case["target_param"] is None and ts is not None and n_in == len(ts_names)):
+        return
+    x0e = list(su["x0"])
+    for s_ in ts_names:
+        x0e[names.index(s_)] = case["x0_eval"][names.index(s_)]
+    traj2 = lossgen.reference_traj(m, th, x0e, su["t0"], times)
+    yhat2 = traj2[:, cols]
+    if (yhat2 <= 1e-9).any() and case["loss"] not in ("Square", "Normal"):
+        return
+    ref2 = lossgen.ref_cost(case, y, yhat2)
+    arg = np.array(list(free) + [x0e[names.index(s_)] for s_ in ts_names])
+    got2 = call(key + "/costIV", case, obj.costIV, arg)
+    rec.label("costIV:" + ("target_state" if ts else "all-states"))
+    if not np.isfinite(got2) or abs(float(got2) - ref2) > 1e-5 * (1 + abs(ref2)):
+        raise PropertyViolation(key + "/costIV", "costIV([theta, x0']) = %.12g, reference = %.12g (x0' = %s)" % (got2, ref2, x0e), case)
+    obj._setX0(np.array(su["x0"], float))       # costIV moves the loss object's initial state; restore it
 
 
 def oracle(case, rec):
@@ -59,6 +90,9 @@ def oracle(case, rec):
     if (yhat <= 1e-9).any():
         raise Inconclusive("prediction not positive")
     ref = lossgen.ref_cost(case, y, yhat)
+    rec.label("order:" + ("costIV-first" if case.get("iv_first") else "cost-first"))
+    if case.get("iv_first"):
+        _check_costIV(case, rec, obj, key, m, su, names, y, th, free, times, cols)
     got = call(key + "/cost", case, obj.cost, np.array(free))
     if not np.isfinite(got) or abs(float(got) - ref) > 1e-5 * (1 + abs(ref)):
         raise PropertyViolation(key + "/cost", "cost(theta) = %.12g, reference loss of the reference trajectory = %.12g" % (got, ref), case)
@@ -71,18 +105,8 @@ def oracle(case, rec):
     if np.abs(res.reshape(n, p) - want).max() > 1e-5 * (1 + np.abs(want).max() + np.abs(y).max()):
         raise PropertyViolation(key + "/residual", "residual(theta) differs from weights*(y - reference trajectory) by %.3g" % (
             np.abs(res.reshape(n, p) - want).max()), case)
-    # costIV: parameters followed by the initial state
-    ambiguous = case["target_param"] is not None and len(free) + len(names) == len(m["params"])
-    if case["target_state"] is None and not ambiguous:
-        x0e = case["x0_eval"]
-        traj2 = lossgen.reference_traj(m, th, x0e, su["t0"], times)
-        yhat2 = traj2[:, cols]
-        if (yhat2 > 1e-9).all():
-            ref2 = lossgen.ref_cost(case, y, yhat2)
-            got2 = call(key + "/costIV", case, obj.costIV, np.array(list(free) + list(x0e)))
-            if not np.isfinite(got2) or abs(float(got2) - ref2) > 1e-5 * (1 + abs(ref2)):
-                raise PropertyViolation(key + "/costIV", "costIV([theta, x0']) = %.12g, reference = %.12g" % (got2, ref2), case)
-            obj._setX0(np.array(su["x0"]))       # costIV moves the loss object's initial state; restore it
+    if not case.get("iv_first"):
+        _check_costIV(case, rec, obj, key, m, su, names, y, th, free, times, cols)
     # zero at the generating parameters
     if case["loss"] == "Square" and case["noise"] == 0:
         star = [su["theta"][m["params"].index(q)] for q in (case["target_param"] or m["params"])]
